@@ -38,6 +38,8 @@ var gTypes = []gType{
 	{"unsafe.Pointer", true, false, []string{"nil", "unsafe.Pointer(new(int))"}},
 	{"*[4]int", true, false, []string{"nil", "new([4]int)"}},
 	{"*T", true, false, []string{"nil", "&a.T{}", "&a.T{P: new(int), I: (*int)(nil), S: []int{1}, F: func() *int { return nil }}"}},
+	// a callback that answers true on its k-th call: ends `for { ... }` loops after a chosen number of rounds
+	{"func() bool", true, false, []string{"nil", "stopAfter(1)", "stopAfter(2)", "stopAfter(3)"}},
 }
 
 func gTypeIdx(name string) int {
@@ -54,7 +56,8 @@ type GFunc struct {
 	Name    string
 	Params  []int // indices into gTypes (after the leading n int)
 	Results []int
-	Defer   bool // body starts with a deferred recover
+	Defer   bool   // body starts with a deferred recover
+	Fixed   string // complete declaration (the non-generic callers of the generic library)
 }
 
 type nilGen struct {
@@ -342,6 +345,15 @@ func (g *nilGen) expr(t int, depth int) string {
 		default:
 			return "&" + g.q("GArr")
 		}
+	case "func() bool":
+		switch r.Intn(4) {
+		case 0:
+			return "nil"
+		case 1:
+			return "func() bool { return true }"
+		default:
+			return g.q("StopAfter") + "(1 + n)"
+		}
 	case "*T":
 		switch r.Intn(4) {
 		case 0:
@@ -455,7 +467,7 @@ func (g *nilGen) stmt(depth int) {
 					g.line("_ = %s", x)
 					g.declare(x, gTypeIdx("*int"))
 				}
-			case "func() *int":
+			case "func() *int", "func() bool":
 				g.line("_ = %s()", v.name)
 			case "*[4]int":
 				g.line("%s[0] = 1", v.name)
@@ -608,6 +620,118 @@ func (g *nilGen) stmt(depth int) {
 	}
 }
 
+// leaves of a pointer-like type that involve no control flow and no closure: (nil-ish, non-nil)
+func (g *nilGen) leaves(t int) []string {
+	switch gTypes[t].Name {
+	case "*int":
+		return []string{"nil", "new(int)", "&" + g.q("GInt")}
+	case "**int":
+		return []string{"nil", "new(*int)"}
+	case "[]int":
+		return []string{"nil", "[]int{1}", "[]int{}"}
+	case "map[int]*int":
+		return []string{"nil", "map[int]*int{}"}
+	case "chan *int":
+		return []string{"nil", "make(chan *int, 1)"}
+	case "func() *int":
+		return []string{"nil", g.q("RetNil")}
+	case "func() bool":
+		return []string{"nil", g.q("StopAfter") + "(1)"}
+	case "any":
+		return []string{"nil", "any(1)", "any((*int)(nil))", "any(new(int))"}
+	case "error":
+		return []string{"nil", "errors.New(\"e\")", "error((*" + g.q("MyErr") + ")(nil))"}
+	case "unsafe.Pointer":
+		return []string{"nil", "unsafe.Pointer(&" + g.q("GInt") + ")"}
+	case "*[4]int":
+		return []string{"nil", "new([4]int)"}
+	case "*T":
+		return []string{"nil", "&" + g.q("T") + "{}"}
+	}
+	return []string{"nil"}
+}
+
+// selfLoop ends the function with `for { ... }` whose body is one basic block that is its own successor and
+// carries pointer-like variables around the back edge (copies of the previous round, swaps, rotations); the loop is
+// left after a number of rounds chosen by the caller (a stop callback or the parameter n).
+func (g *nilGen) selfLoop() {
+	f := g.funcs[g.cur]
+	r := g.r
+	t := f.Results[0]
+	lv := g.leaves(t)
+	pick := func() string {
+		if x, ok := g.pickVar(t); ok && r.Chance(40) {
+			return x
+		}
+		return lv[r.Intn(len(lv))]
+	}
+	c := []string{g.fresh(), g.fresh(), g.fresh()}
+	for _, x := range c {
+		g.line("var %s %s = %s", x, g.tn(t), pick())
+		g.line("_ = %s", x)
+	}
+	k := g.fresh()
+	g.line("%s := 0", k)
+	stop, hasStop := g.pickVar(gTypeIdx("func() bool"))
+	for _, x := range c {
+		g.declare(x, t)
+	}
+	g.line("for {")
+	g.indent++
+	prev := g.fresh()
+	g.line("%s := %s", prev, c[0])
+	g.line("_ = %s", prev)
+	for i := 0; i < 1+r.Intn(2); i++ {
+		switch r.Intn(6) {
+		case 0:
+			g.line("%s = nil", c[0])
+		case 1:
+			g.line("%s = %s", c[r.Intn(3)], lv[r.Intn(len(lv))])
+		case 2:
+			g.line("%s, %s = %s, %s", c[0], c[1], c[1], c[0])
+		case 3:
+			g.line("%s, %s, %s = %s, %s, %s", c[0], c[1], c[2], c[2], c[0], c[1])
+		case 4:
+			g.line("%s = %s", c[0], c[1])
+			g.line("%s = %s", c[1], lv[r.Intn(len(lv))])
+		default:
+			g.line("%s = %s", c[1], prev)
+		}
+	}
+	g.line("%s++", k)
+	if hasStop && r.Chance(70) {
+		g.line("if %s() {", stop)
+	} else {
+		g.line("if %s > n {", k)
+	}
+	g.indent++
+	cands := append([]string{prev}, c...)
+	var es []string
+	for _, rt := range f.Results {
+		if rt == t {
+			es = append(es, cands[r.Intn(len(cands))])
+		} else {
+			es = append(es, g.leafOrVar(rt))
+		}
+	}
+	g.line("return %s", strings.Join(es, ", "))
+	g.indent--
+	g.line("}")
+	g.indent--
+	g.line("}")
+}
+
+func (g *nilGen) leafOrVar(t int) string {
+	if x, ok := g.pickVar(t); ok {
+		return x
+	}
+	if gTypes[t].PtrLike {
+		lv := g.leaves(t)
+		return lv[g.r.Intn(len(lv))]
+	}
+	return map[string]string{"int": "0", "bool": "false", "uintptr": "0"}[gTypes[t].Name]
+}
+
 const nilgenPrelude = `
 type T struct {
 	P *int
@@ -629,6 +753,62 @@ var (
 )
 
 func RetNil() *int { return nil }
+
+// StopAfter returns a callback that answers true on its k-th call.
+func StopAfter(k int) func() bool {
+	calls := 0
+	return func() bool { calls++; return calls >= k }
+}
+
+// ---- generic library: pointer-like type-parameter results
+func GPick[T ~*int | ~[]int](x any, d T) T {
+	switch v := x.(type) {
+	case T:
+		return v
+	}
+	return d
+}
+
+func GPickNew[T ~*int](x any) T {
+	switch v := x.(type) {
+	case T:
+		return v
+	}
+	return T(new(int))
+}
+
+func GPickSlice[T ~[]int](x any) T {
+	switch v := x.(type) {
+	case nil:
+		return T([]int{1})
+	case T:
+		return v
+	default:
+		return T([]int{})
+	}
+}
+
+func GAssert[T ~*int | ~[]int](x any) T { return x.(T) }
+
+func GAssertOk[T ~*int | ~[]int](x any) T {
+	v, _ := x.(T)
+	return v
+}
+
+func GZero[T ~*int | ~[]int]() T { return *new(T) }
+
+func GConv[T ~*int](p *int) T { return T(p) }
+
+func GId[T any](v T) T { return v }
+
+func GFirstNonNil[T ~*int](a, b T) T {
+	if a != nil {
+		return a
+	}
+	return b
+}
+
+type NamedPtr *int
 
 var _ = errors.New
 var _ unsafe.Pointer
@@ -658,6 +838,24 @@ func GenNilModule(r *Rand, dir string, na, nb int) []GFunc {
 		f.Defer = r.Chance(8)
 		g.funcs = append(g.funcs, f)
 	}
+	ti := gTypeIdx
+	for k, w := range []GFunc{
+		{Params: []int{ti("any")}, Results: []int{ti("*int")}, Fixed: "(n int, p0 any) *int { return GPickNew[*int](p0) }"},
+		{Params: []int{ti("any")}, Results: []int{ti("any")}, Fixed: "(n int, p0 any) any { return GPickNew[*int](p0) }"},
+		{Params: []int{ti("any"), ti("*int")}, Results: []int{ti("*int")}, Fixed: "(n int, p0 any, p1 *int) *int { return GPick[*int](p0, p1) }"},
+		{Params: []int{ti("any")}, Results: []int{ti("any")}, Fixed: "(n int, p0 any) any { return GPick[*int](p0, new(int)) }"},
+		{Params: []int{ti("any")}, Results: []int{ti("[]int")}, Fixed: "(n int, p0 any) []int { return GPickSlice[[]int](p0) }"},
+		{Params: []int{ti("any")}, Results: []int{ti("[]int")}, Fixed: "(n int, p0 any) []int { return GAssert[[]int](p0) }"},
+		{Params: []int{ti("any")}, Results: []int{ti("*int")}, Fixed: "(n int, p0 any) *int { return GAssertOk[*int](p0) }"},
+		{Params: nil, Results: []int{ti("*int")}, Fixed: "(n int) *int { return GZero[*int]() }"},
+		{Params: []int{ti("*int")}, Results: []int{ti("*int")}, Fixed: "(n int, p0 *int) *int { return GConv[NamedPtr](p0) }"},
+		{Params: []int{ti("any")}, Results: []int{ti("any")}, Fixed: "(n int, p0 any) any { return GId[any](p0) }"},
+		{Params: []int{ti("any"), ti("*int")}, Results: []int{ti("*int")}, Fixed: "(n int, p0 any, p1 *int) *int { return GFirstNonNil[*int](GPickNew[*int](p0), p1) }"},
+		{Params: []int{ti("any")}, Results: []int{ti("error")}, Fixed: "(n int, p0 any) error {\n\tif p := GPickNew[*int](p0); p == nil {\n\t\treturn errors.New(\"nil\")\n\t}\n\treturn nil\n}"},
+	} {
+		w.Pkg, w.Name = "a", fmt.Sprintf("GW%d", k)
+		g.funcs = append(g.funcs, w)
+	}
 	for _, pkg := range []string{"a", "b"} {
 		var sb strings.Builder
 		g.sb, g.pkg = &sb, pkg
@@ -673,6 +871,10 @@ func GenNilModule(r *Rand, dir string, na, nb int) []GFunc {
 		}
 		for i, f := range g.funcs {
 			if f.Pkg != pkg {
+				continue
+			}
+			if f.Fixed != "" {
+				fmt.Fprintf(&sb, "\nfunc %s%s\n", f.Name, f.Fixed)
 				continue
 			}
 			g.cur, g.nvar, g.indent, g.guard = i, 0, 0, false
@@ -699,7 +901,11 @@ func GenNilModule(r *Rand, dir string, na, nb int) []GFunc {
 			for g.budget > 0 {
 				g.stmt(0)
 			}
-			g.retStmt()
+			if r.Chance(25) {
+				g.selfLoop()
+			} else {
+				g.retStmt()
+			}
 			g.indent--
 			g.line("}")
 			g.pop()
@@ -757,6 +963,36 @@ var _ = b.B0
 
 func ptrTo(p *int) **int { return &p }
 
+func stopAfter(k int) func() bool { return a.StopAfter(k) }
+
+// the generic library itself, instantiated here
+func runGenerics() {
+	type named = a.NamedPtr
+	xs := []any{nil, (*int)(nil), new(int), 3, []int(nil), []int{1}, a.NamedPtr(nil), a.NamedPtr(new(int))}
+	for _, x := range xs {
+		x := x
+		for _, d := range []*int{nil, new(int)} {
+			try(func() { r := a.GPick[*int](x, d); record("a.GPick", 0, r == nil, false, r) })
+			try(func() { r := a.GFirstNonNil[*int](a.GPickNew[*int](x), d); record("a.GFirstNonNil", 0, r == nil, false, r) })
+		}
+		try(func() { r := a.GPick[[]int](x, []int{2}); record("a.GPick", 0, r == nil, false, r) })
+		try(func() { r := a.GPickNew[*int](x); record("a.GPickNew", 0, r == nil, false, r) })
+		try(func() { r := a.GPickNew[named](x); record("a.GPickNew", 0, r == nil, false, r) })
+		try(func() { r := a.GPickSlice[[]int](x); record("a.GPickSlice", 0, r == nil, false, r) })
+		try(func() { r := a.GAssert[*int](x); record("a.GAssert", 0, r == nil, false, r) })
+		try(func() { r := a.GAssert[[]int](x); record("a.GAssert", 0, r == nil, false, r) })
+		try(func() { r := a.GAssertOk[*int](x); record("a.GAssertOk", 0, r == nil, false, r) })
+		try(func() { r := a.GAssertOk[[]int](x); record("a.GAssertOk", 0, r == nil, false, r) })
+		try(func() { r := a.GId[any](x); record("a.GId", 0, r == nil, true, r) })
+	}
+	try(func() { r := a.GZero[*int](); record("a.GZero", 0, r == nil, false, r) })
+	try(func() { r := a.GZero[[]int](); record("a.GZero", 0, r == nil, false, r) })
+	for _, p := range []*int{nil, new(int)} {
+		try(func() { r := a.GConv[named](p); record("a.GConv", 0, r == nil, false, r) })
+		try(func() { r := a.GId[*int](p); record("a.GId", 0, r == nil, false, r) })
+	}
+}
+
 type obs struct{ returned, outerNil, outerNon, innerNil, innerNon int }
 
 var table = map[string]*obs{}
@@ -802,6 +1038,7 @@ func main() {
 			a.GPtr, a.GAny, a.GErr = new(int), new(int), errors.New("g")
 		}
 		runAll()
+		runGenerics()
 	}
 	for key, o := range table {
 		fmt.Println(key, o.returned, o.outerNil, o.outerNon, o.innerNil, o.innerNon)
